@@ -164,6 +164,29 @@ def fold_second(name: str, reqs: dict, results: dict):
     return None
 
 
+def second_request(case: dict, reqs: dict, cyc: int) -> None:
+    """(before `step`) the second caller `<m>_b` of the exclusive method m = case["second"] requests, with the same
+    arguments as the first caller, in those cycles chosen by the bits of case["second_mask"] in which the first caller
+    requests.  Together with `fold_second` afterwards: exactly one of the two is served iff a single caller would be."""
+    m = case.get("second")
+    if m and m in reqs and (case.get("second_mask", 0) >> (cyc % 32)) & 1:
+        reqs[m + "_b"] = dict(reqs[m])
+
+
+def second_fold(case: dict, reqs: dict, results: dict):
+    """(after `step`) counterpart of `second_request`; returns a violation message or None"""
+    m = case.get("second")
+    if not m:
+        return None
+    return fold_second(m, reqs, results)
+
+
+def draw_second(draw, methods):
+    """strategy helper: (second, second_mask) - in one case of three one of `methods` gets a second caller"""
+    second = draw(st.sampled_from([None, None] + [draw(st.sampled_from(list(methods)))]))
+    return second, draw(st.integers(0, (1 << 32) - 1)) if second else 0
+
+
 # ---------------------------------------------------------------------------------------------- strategies
 
 
